@@ -617,15 +617,32 @@ Proof.
     - intros l0 g H. destruct (Ho1 l0 g H) as [H' _]. apply (q_bd _ Q0 l0 g H').
     - intros l0 l1 g H0 H1. destruct (Ho1 l0 g H0) as [H0' _]. destruct (Ho1 l1 g H1) as [H1' _].
       eapply (q_d1 _ Q0); eauto. }
-  set (s2 := if llocked (getl s1 l) then s1 else wake_up_first_p s1 l).
-  assert (K2 : keep s1 s2) by (unfold s2; destruct (llocked (getl s1 l)); [kq|apply keep_wake_p]).
+  set (s2 := if llocked (getl s1 l)
+             then match lowner (getl s1 l) with
+                  | Some o => if Nat.eqb o t then s1 else propagate_priority s1 o
+                  | None => s1 end
+             else wake_up_first_p s1 l).
+  assert (P2 : QF s2 /\ wle s1 s2 /\ length (futs s1) <= length (futs s2) /\
+               (forall l0 g, In g (objs s2 l0) <-> In g (objs s1 l0))).
+  { assert (FK : forall s', keep s1 s' -> QF s' /\ wle s1 s' /\ length (futs s1) <= length (futs s') /\
+                   (forall l0 g, In g (objs s' l0) <-> In g (objs s1 l0))).
+    { intros s' K. split; [eapply QF_keep; eauto|]. split; [apply K|]. split; [apply K|].
+      intros l0 g. rewrite (keep_objs s1 s' l0 K). tauto. }
+    unfold s2. destruct (llocked (getl s1 l)); [|apply FK, keep_wake_p].
+    destruct (lowner (getl s1 l)) as [o|]; [|apply FK, keep_refl].
+    destruct (Nat.eqb o t); [apply FK, keep_refl|].
+    unfold propagate_priority.
+    destruct (prop_facts (efuel s1) s1 o Q1) as (Q2 & Et2 & Ef2 & Ho2).
+    split; [exact Q2|]. split; [intros t0; left; unfold gett; now rewrite Et2|].
+    split; [rewrite Ef2; lia|exact Ho2]. }
+  destruct P2 as (Q2 & W2 & F2 & Ho2).
   set (s3 := if had then sett s2 t (gett s2 t <| twaiting := None |>) else s2).
   assert (K3 : keep s2 s3) by (unfold s3; destruct had; kq).
-  pose proof (keep_trans _ _ _ K2 K3) as K13.
   cbn [fst]. split; [eapply QF_keep; eauto|]. split; [|split].
-  - eapply wle_trans; [apply K0|]. eapply wle_trans; [|apply K13]. intros t0. now left.
-  - pose proof (k_f _ _ K0). pose proof (k_f _ _ K13). change (futs s1) with (futs s0) in *. lia.
-  - intros l0 g H. rewrite (keep_objs s1 s3 l0 K13) in H. destruct (Ho1 l0 g H) as [H' Hn].
+  - eapply wle_trans; [apply K0|]. eapply wle_trans; [|apply K3].
+    eapply wle_trans; [|exact W2]. intros t0. now left.
+  - pose proof (k_f _ _ K0). pose proof (k_f _ _ K3). change (futs s1) with (futs s0) in *. lia.
+  - intros l0 g H. rewrite (keep_objs s2 s3 l0 K3) in H. apply Ho2 in H. destruct (Ho1 l0 g H) as [H' Hn].
     split; auto. now rewrite <- (keep_objs s s0 l0 K0).
 Qed.
 
